@@ -2,27 +2,32 @@ module verif/harness
 
 go 1.26.0
 
+// superset of go-git's own requirements so that no harness command ever needs to edit this file
 require (
-	github.com/go-git/go-billy/v6 v6.0.0-alpha.2
 	github.com/go-git/go-git/v6 v6.0.0
-<<<<<<< HEAD
+	github.com/Microsoft/go-winio v0.6.2
+	github.com/ProtonMail/go-crypto v1.4.1
+	github.com/anmitsu/go-shlex v0.0.0-20200514113438-38f4b401e2be
+	github.com/armon/go-socks5 v0.0.0-20160902184237-e75332964ef5
+	github.com/cloudflare/circl v1.6.3
+	github.com/davecgh/go-spew v1.1.1
+	github.com/emirpasic/gods v1.18.1
+	github.com/gliderlabs/ssh v0.3.8
+	github.com/go-git/gcfg/v2 v2.0.2
+	github.com/go-git/go-billy/v6 v6.0.0-alpha.2
+	github.com/go-git/go-git-fixtures/v6 v6.0.0-alpha.1
+	github.com/kevinburke/ssh_config v1.6.0
+	github.com/klauspost/cpuid/v2 v2.3.0
 	github.com/pjbgf/sha1cd v0.6.0
-=======
->>>>>>> b12
-)
-
-require (
-	github.com/ProtonMail/go-crypto v1.4.1 // indirect
-	github.com/cloudflare/circl v1.6.3 // indirect
-	github.com/emirpasic/gods v1.18.1 // indirect
-	github.com/go-git/gcfg/v2 v2.0.2 // indirect
-	github.com/kevinburke/ssh_config v1.6.0 // indirect
-	github.com/klauspost/cpuid/v2 v2.3.0 // indirect
-	github.com/sergi/go-diff v1.4.0 // indirect
-	golang.org/x/crypto v0.55.0 // indirect
-	golang.org/x/net v0.58.0 // indirect
-	golang.org/x/sync v0.22.0 // indirect
-	golang.org/x/sys v0.47.0 // indirect
+	github.com/pmezard/go-difflib v1.0.0
+	github.com/sergi/go-diff v1.4.0
+	github.com/stretchr/testify v1.11.1
+	golang.org/x/crypto v0.55.0
+	golang.org/x/net v0.58.0
+	golang.org/x/sync v0.22.0
+	golang.org/x/sys v0.47.0
+	golang.org/x/text v0.41.0
+	gopkg.in/yaml.v3 v3.0.1
 )
 
 replace github.com/go-git/go-git/v6 => /repo
